@@ -486,7 +486,7 @@ func checkMutant(base *baseRun, kind string, data []byte, classes []string, foll
 	stage := ""
 	step := func(name string, f func() error) (bool, *ev.Outcome) {
 		stage = name
-		err, psig, pmsg := callRound(name, f)
+		err, psig, pmsg := callRound(name, kind, f)
 		if psig != "" {
 			o := ev.Fail(psig, "value decoded from a mutated %s encoding (%s): %s", kind, base.curveName, pmsg)
 			return false, &o
